@@ -259,6 +259,19 @@ def gen_s4():
         yield ("s4/callable-equality", "in-list-second", a, b), fdefs + [("let", "r", B("in", SYM(a), L(SYM("k"), SYM(b))))]
         yield ("s4/callable-equality", "inside-tuple", a, b), fdefs + [("let", "r", B("==", T(("v", SYM(a))), T(("v", SYM(b)))))]
         yield ("s4/callable-equality", "inside-list", a, b), fdefs + [("let", "r", B("==", L(SYM(a)), L(SYM(b))))]
+    # ... and two different functions made in one and the same scope (fields of one tuple, elements of one list, made by one call)
+    inc, dec = ("func", ["x"], B("+", SYM("x"), one)), ("func", ["x"], B("-", SYM("x"), one))
+    pairs = [("tuple-fields", [("let", "t", T(("inc", inc), ("dec", dec)))], B(".", SYM("t"), SYM("inc")), B(".", SYM("t"), SYM("dec"))),
+             ("list-elements", [("let", "l", L(inc, dec))], B(".", SYM("l"), I(0)), B(".", SYM("l"), I(1))),
+             ("made-by-one-call", [("let", "mk", ("func", ["a"], T(("add", ("func", ["x"], B("+", SYM("x"), SYM("a")))), ("sub", ("func", ["x"], B("-", SYM("x"), SYM("a"))))))),
+                                   ("let", "t", ("call", SYM("mk"), [one]))], B(".", SYM("t"), SYM("add")), B(".", SYM("t"), SYM("sub"))),
+             ("made-by-two-calls", [("let", "mk", ("func", ["a"], ("func", ["x"], B("+", SYM("x"), SYM("a"))))), ("let", "p", ("call", SYM("mk"), [one])),
+                                    ("let", "q", ("call", SYM("mk"), [I(2)]))], SYM("p"), SYM("q"))]
+    for pn, defs, a, b in pairs:
+        for x, y, tag in ((a, b, "different"), (a, a, "same")):
+            yield ("s4/callable-equality-one-scope", pn, tag, "=="), defs + [("let", "r", B("==", x, y))]
+            yield ("s4/callable-equality-one-scope", pn, tag, "!="), defs + [("let", "r", B("!=", x, y))]
+            yield ("s4/callable-equality-one-scope", pn, tag, "in"), defs + [("let", "r", B("in", x, L(y)))]
     # P4: format `item` scope
     for n1 in ["item", "x"]:
         for n2 in ["item", "x"]:
